@@ -1458,7 +1458,7 @@ class Cookie:
             decoded_value=decoded_value,
             expires=parse_date(params.get("expires")),
             max_age=int(params["max-age"] or 0) if "max-age" in params else None,
-            domain=params.get("domain") or server_name,
+            domain=(params.get("domain") or "").lstrip(".") or server_name,
             origin_only="domain" not in params,
             path=params.get("path") or path.rpartition("/")[0] or "/",
             secure="secure" in params,
